@@ -267,20 +267,28 @@ def scenarios(pid, tier, seed):
             sc = dyn_gen.gen_tree(rng, depth=rng.choice([2, 2, 3]), p_sched=0.5)
             sc["late_fill"] = True
             out.append(("late-fill", sc))
-    if pid in ("C01",):
+    if pid in ("C01", "C04", "C05", "C11", "C13"):
         # verbose schedulers whose standard output is a strict utf-8 stream, and a job result that such a stream cannot
-        # print (a file name with an undecodable byte): the orchestration of the verbose scheduler fails half-way
+        # print (a file name with an undecodable byte): the orchestration of the verbose scheduler fails half-way; now and
+        # then its enclosing scheduler ends (critical failure, timeout) while it is still cleaning up after that
         for i in range(max(20, n_r // 20)):
-            inner = [dyn_gen.J("q", rng.choice([0, 1]), odd=True, h=1), dyn_gen.J("long", rng.choice([2, 3, None]), h=2, forever=False),
+            slow = rng.choice([0, 0, 2, 3])
+            inner = [dyn_gen.J("q", rng.choice([0, 1]), odd=True, h=1),
+                     dyn_gen.J("long", rng.choice([2, 3, None]), h=2, forever=False, ch=slow, sd=rng.choice([0, 0, 1])),
                      dyn_gen.J("q2", 1, h=3, req=["q"] if rng.random() < 0.5 else [])]
             if inner[1]["d"] is None:
                 inner[1]["forever"] = True
             rng.shuffle(inner)
             nested = dyn_gen.S("in", inner, verbose=True, crit=rng.random() < 0.5, w=rng.choice([None, None, 2]), h=4)
-            kids = [nested, dyn_gen.J("after", 1, h=5, req=["in"]), dyn_gen.J("side", rng.choice([1, 4]), h=6)]
+            side = dyn_gen.J("side", rng.choice([1, 2, 4]), h=6)
+            if slow and rng.random() < 0.6:
+                side.update(exc=True, crit=True)
+            kids = [nested, dyn_gen.J("after", 1, h=5, req=["in"]), side]
             if rng.random() < 0.4:
-                kids = [dyn_gen.S("mid", [nested, dyn_gen.J("m", 1, h=7)], h=8), dyn_gen.J("after", 1, h=5, req=["mid"]), kids[2]]
-            out.append(("unprintable", dict(tree=dyn_gen.S("top", kids, pure=rng.random() < 0.5, verbose=rng.random() < 0.3), strict_out=True)))
+                kids = [dyn_gen.S("mid", [nested, dyn_gen.J("m", 1, h=7)], h=8), dyn_gen.J("after", 1, h=5, req=["mid"]), side]
+            top = dyn_gen.S("top", kids, pure=rng.random() < 0.5, verbose=rng.random() < 0.3,
+                            T=rng.choice([None, None, 2]) if slow else None)
+            out.append(("unprintable", dict(tree=top, strict_out=True)))
     if pid in ("C08", "C04"):
         # job steps that keep the loop busy (time passes while the scheduler has work to do): chains and windows of
         # short busy jobs whose total exceeds the timeout
